@@ -224,12 +224,14 @@ def run_monitored(case, timeout=60):
 
 def run(ctx):
     ctx.correspondences += ['translator validation take_step / pbc_min_dist / lorentz_berthelot_rule (PrimFloat vs numpy, 1e-9)',
-                            'complete gen_coords runs: every placement re-judged (in box, step length under minimum image, grid start, floor, force limit)']
+                            'complete gen_coords runs: every placement re-judged (in box, step length under minimum image, grid start, floor, force limit)',
+                            'engine-level probe of _is_overlap on both sides of the 0.1 nm floor and of the force limit, for plain residues and graph neighbours']
     try:
         validate_kernels(ctx, ctx.n(200, 2000))
     except core.CoqEvalError as exc:
         ctx.note(str(exc)[:600])
         ctx.broken.append('correspondence:translator-validation (evaluation failed)')
+    search_floor(ctx)      # engine-level probe of the 0.1 nm floor / force limit (graph neighbours included); cheap, always run
     cases = [c for _, c in core.corpus_cases('C05')]
     cases += [gen_system(ctx.rng) for _ in range(ctx.n(14, 150))]
     nplace = 0
@@ -306,23 +308,26 @@ def search_floor(ctx):
         for cross in (False, True):
             q = np.array([0.03, 2.0, 2.0]) if cross else np.array([2.0, 2.0, 2.0])
             p = (q - np.array([d, 0, 0])) % box
-            for sig, max_force in ((0.5, 1e2), (0.5, 5e4), (0.05, 1e2), (0.05, 5e4)):
+            for sig, max_force, linked in ((0.5, 1e2, False), (0.5, 5e4, False), (0.05, 1e2, False), (0.05, 5e4, False),
+                                           (0.5, 5e4, True), (0.05, 1e2, True)):
                 positions = np.ones((2, 3)) * np.inf
                 positions[0] = q
                 eng = nbe.NonBondEngine(positions, {(0, 0): 0, (0, 1): 1}, ['A', 'A'], {frozenset(['A']): (sig, 1.0)},
                                         None, None, 1.0, box)
                 g = nx.Graph()
                 g.add_nodes_from([0, 1])
+                if linked:
+                    g.add_edge(0, 1)          # the positioned residue is a graph neighbour (ring closure): no force, but the floor holds
                 walker = rw.RandomWalk(0, eng, max_force=max_force, maxdim=box)
                 walker.molecule = g
                 overlap = bool(walker._is_overlap(p, 1))
                 f = abs(lj(sig, 1.0, d))
-                want = d < 0.1 or f > max_force
+                want = d < 0.1 or (not linked and f > max_force)
                 if overlap != want:
-                    ctx.violation('search', f"_is_overlap at distance {d} (size {sig}, force {f:.3f}, max_force {max_force}) returned {overlap}, "
-                                  f"the statement requires {want}",
+                    ctx.violation('search', f"_is_overlap at distance {d} from a positioned {'graph neighbour' if linked else 'residue'} (size {sig}, force {f:.3f}, "
+                                  f"max_force {max_force}) returned {overlap}, the statement requires {want}",
                                   {'probe': 'floor', 'd': d, 'cross_boundary': cross, 'max_force': max_force, 'observed': overlap,
-                                   'expected': want, 'broken': ctx.broken})
+                                   'expected': want, 'linked': linked, 'broken': ctx.broken})
                     return True
     return False
 
